@@ -8,7 +8,8 @@ CONSTANTS
   MaxTxPerBlock = 2
   MaxTxTotal = 2
   Window = 2
+  GCLag = 0
   CheckStay = FALSE
   Deviation = "none"
-INVARIANTS InvSound InvAdmits InvStay InvProp
+INVARIANTS InvAnswers InvStay InvProp
 CHECK_DEADLOCK FALSE
